@@ -11,8 +11,10 @@ cleanup() { git -C /repo worktree remove --force "$WT" >/dev/null 2>&1; rm -rf "
 trap cleanup EXIT INT TERM
 if ! git -C "$WT" apply "$DIR/patch.diff"; then echo "PATCH-DOES-NOT-APPLY"; exit 3; fi
 if [ -f "$DIR/demo.py" ]; then
-  ( cd "$WT" && NUMBA_CACHE_DIR="$(mktemp -d /tmp/nbc-XXXXXX)" PYTHONPATH="$WT" COLUMNS=100 timeout 600 /venv/bin/python "$DIR/demo.py" >/dev/null 2>&1 )
+  NBC="$(mktemp -d /tmp/nbc-XXXXXX)"
+  ( cd "$WT" && NUMBA_CACHE_DIR="$NBC" PYTHONPATH="$WT" COLUMNS=100 timeout 600 /venv/bin/python "$DIR/demo.py" >/dev/null 2>&1 )
   echo "demo exit with patch: $?"
+  rm -rf "$NBC"
 fi
 cd "$HERE"
 DSIM_REPO="$WT" VERIF_NO_EVIDENCE=1 ./check "$PROP" --tier "$TIER" 2>&1 | grep -E "^VIOLATION|^  sig|KNOWN-FINDING|HARNESS|dsim\] C" | cut -c1-400 | head -12
